@@ -3,7 +3,9 @@ modules that read files (scinumtools.dip.dip and scinumtools.dip.nodes.node_sour
 All paths are absolute below /simfs (a directory that does not exist on the real
 disk), so os.path.isabs / realpath stay real and purely lexical.
 
-Per-open fault plans: ENOENT, EACCES, EIO raised from read(), undecodable bytes.
+Per-open fault plans: ENOENT, EACCES, EIO raised from read(), undecodable bytes, and
+"torn:<permille>" - the reader gets only a prefix of the content, cut at an arbitrary
+character (a file caught while another process was still writing it).
 """
 import errno
 import io
@@ -67,6 +69,12 @@ class SimFS:
             self.opens.append((path, "undecodable"))
             raw = io.BytesIO(b"a float = 1\n\xff\xfe\xfa broken \x80\n")
             return io.TextIOWrapper(raw, encoding="utf-8")
+        if isinstance(fault, str) and fault.startswith("torn:"):
+            text = self.files[path]
+            cut = len(text) * int(fault.split(":")[1]) // 1000
+            self.fired.append((path, "torn"))
+            self.opens.append((path, "torn"))
+            return io.StringIO(text[:cut])
         self.opens.append((path, "ok"))
         return io.StringIO(self.files[path])
 
